@@ -25,7 +25,8 @@ func init() {
 			"the same with ONE injected violation from a 36-entry catalogue (one injector per rule the property enumerates) must be rejected; random syntax-level SDL is judged only in the direction checker-finds-a-listed-violation => rejected. " +
 			"Verdicts come from an independent rule checker over the model (three-way: generator, checker and loader; generator/checker disagreements are discarded and counted). " +
 			"Every schema that loads is walked by a graph monitor: all type references resolve, Interfaces/Types names resolve with the right kind, PossibleTypes and Implements equal the relations implied by the definitions, no nil entries, " +
-			"built-in scalars/directives/introspection types present, roots as declared or inferred, __schema/__type on the query root. " +
+			"built-in scalars/directives/introspection types present, roots as declared or inferred, __schema/__type on the query root; one loaded schema in eight is compared with the October 2021 specification's own list of built-ins written down in the harness (every specified type, field, argument with its type - by structure, not by printed text - and default, enum value, directive argument and location is there; later additions are allowed). " +
+			"The valid schema is loaded before its faulted variants for even case indices and after them for odd ones (same names, other relations: a load must not depend on earlier loads). " +
 			"distinct = distinct (fault code, loader message template) pairs plus distinct schema shape signatures; non-trivial = every judged schema",
 		Assumptions: []string{
 			"rules outside the property's enumeration that the loader also enforces (several schema definitions, extension kind mismatch, unknown directive argument, directive self reference, reserved enum values) are recognised and not judged",
